@@ -61,6 +61,9 @@ pub(crate) fn parse(range: Option<&HeaderValue>, len: u64) -> ResolvedRanges {
                 Err(_) => return ResolvedRanges::None, // unparseable
                 Ok(l) => l,
             };
+            if last == 0 {
+                continue; // a zero suffix-length selects nothing; this range is not satisfiable.
+            }
             if last >= len {
                 continue; // this range is not satisfiable; skip.
             }
